@@ -25,6 +25,72 @@ TRUSTED = ["f64 Display prints finite values as decimal numerals the lexer reads
            "str::find / the string scanner stop at the first quote, so a string literal payload contains none"]
 
 
+def data_cursor_rule(ck, F):
+    """"identical behaviour under RUN, including the sequence of DATA items READ sees": two programs with the same listing hold
+    the same lines, so the items READ sees must be a function of the stored lines alone.  ProgramLines::data_iterator (with
+    everything it calls) therefore touches no field of ProgramLines besides the two line indexes -- a memoised chunk list is a
+    third input that an edit can leave stale, and then the original and its reloaded listing read different items."""
+    from lib import adt_fields_touched
+    di = get_fn(ck, F, "ProgramLines::data_iterator")
+    if di is None:
+        return
+    touched = adt_fields_touched(F, di, "program_lines::ProgramLines")
+    extra = sorted(touched - {"numbered_lines", "sorted_line_numbers"})
+    ck.require(not extra and touched, "C14:DATA:cursor-from-stored-lines-only", "DATA round trip",
+               "data_iterator reads %s and nothing else of ProgramLines" % sorted(touched),
+               "ProgramLines::data_iterator also depends on ProgramLines.%s: the DATA items a run sees are no longer determined by "
+               "the stored lines (which is all a listing carries), so a program and its reloaded listing can READ different "
+               "items" % ",".join(extra), di.span)
+
+
+def string_text_rule(ck, F):
+    """LIST prints a string literal as `"` + text + `"` with the text verbatim, and the tokenizer ends a literal at the first
+    `"`: the two are inverse only while a literal's text cannot contain a double quote.  The text handed to the string manager
+    is therefore the slice of the source up to the offset `find('"')` returned on that very string (an escape convention that
+    lets `""` stand for a quote would need the renderer to double it again)."""
+    n = 0
+    for body in F.bodies.values():
+        if body.crate != "abasic_core" or "tokenizer::Tokenizer" not in body.path or "::tests" in body.path:
+            continue
+        for (bb, i, pl, rv, sp) in aggregates(body, "tokenizer::Token", "StringLiteral"):
+            n += 1
+            e = body.rv_expr(rv)
+            why = None
+            mk = [x for x in expr_calls(e) if "string_manager::StringManager::" in x[1]]
+            if not mk:
+                why = "is not made by the string manager from source text"
+            else:
+                def peel(x):
+                    x = strip_expr(x)
+                    while x[0] in ("place", "ref") and isinstance(x[1], tuple):
+                        x = strip_expr(x[1])
+                    return x
+                t = peel(mk[0][2][1]) if len(mk[0][2]) > 1 else ("?",)
+                if t[0] == "call" and t[1].endswith("for str>::index") and len(t[2]) == 2:
+                    rng = peel(t[2][1])
+                    src = [x for x in expr_calls(t[2][0]) if len(x) > 3][:1]
+                    if rng[0] == "agg" and str(rng[1]).endswith("RangeTo") and len(rng[3]) == 1:
+                        fnd = peel(rng[3][0])
+                        if fnd[0] == "call" and fnd[1].endswith("<impl str>::find") and len(fnd[2]) == 2:
+                            pat = peel(fnd[2][1])
+                            src2 = [x for x in expr_calls(fnd[2][0]) if len(x) > 3][:1]
+                            if not (pat[0] == "const" and pat[1].get("int") == 34):
+                                why = "ends at something other than the first double quote"
+                            elif not (src and src2 and src[0][3] is src2[0][3]) and show(t[2][0]) != show(fnd[2][0]):
+                                why = "is cut from a different string than the one searched for the closing quote"
+                        else:
+                            why = "does not end at the offset find('\"') returned"
+                    else:
+                        why = "is not the prefix up to the closing quote"
+                else:
+                    why = "is assembled (%s) rather than sliced from the source up to the first double quote" % mk[0][1].split("::")[-1]
+            ck.require(why is None, "C14:STRING:text-ends-at-first-quote:%s" % body.path.split("::")[-1], "inverse tables",
+                       "the literal's text is source[..find('\"')]: it cannot contain a double quote, so `\"` + text + `\"` reloads as the same literal",
+                       "in %s the text of a string literal %s: it can contain a double quote, which LIST prints verbatim between "
+                       "quotes, so the listing reloads as different tokens" % (body.path, why), sp)
+    ck.floor("C14.string literal constructions in the tokenizer", n, 1)
+
+
 def run(ck, F, E):
     kw = tables.keyword_table(F)
     pt = tables.punct_table(F)
@@ -78,6 +144,8 @@ def run(ck, F, E):
                "DATA rendering %r does not match the lexer (%s)" % (dt.get("Data", {}).get("pieces"), sp))
     ck.require(dt.get("StringLiteral", {}).get("pieces") == ['"', None, '"'], "C14:SPECIAL:StringLiteral", "inverse tables",
                "string literals render between double quotes", "StringLiteral renders as %r" % dt.get("StringLiteral", {}).get("pieces"))
+    string_text_rule(ck, F)
+    data_cursor_rule(ck, F)
     ck.require(dt.get("Symbol", {}).get("pieces") == [None] and dt.get("NumericLiteral", {}).get("pieces") == [None],
                "C14:SPECIAL:Symbol/Numeric", "inverse tables", "symbols and numerals render as their Display text only",
                "Symbol / NumericLiteral render with extra text")
